@@ -204,8 +204,8 @@ class Gen:
         return Cmd("(assert %s)" % text, "A" + at, "assert", formula=self.plain(f), name=outer,
                    inner=[(n, self.lit_text(f[1][i])) for i, n in inner.items()])
 
-    def c_define(self):
-        k = self.fresh_fun()
+    def c_define(self, k=None):
+        k = self.fresh_fun() if k is None else k
         if k is None:
             return None
         l = self.rand_lit()
@@ -215,11 +215,11 @@ class Gen:
         return Cmd("(define-fun f%d () Bool %s)" % (k, text), "D%d|1|1|%s" % (100 + k, at), "define-fun", fun=k,
                    body=self.plain(body))
 
-    def c_assert_fun(self):
+    def c_assert_fun(self, k=None):
         live = self.live_funs()
         if not live:
             return None
-        k = self.rng.choice(sorted(live))
+        k = self.rng.choice(sorted(live)) if k is None else k
         f = ("fun", k, live[k])
         outer = self.fresh_name() if self.rng.random() < 0.5 else None
         text, at = self.aterm(f, {}, outer)
@@ -354,7 +354,8 @@ class Gen:
             live = sorted(self.live_names())
             if not live:
                 return None
-            n = rng.choice(live)
+            outer = sorted(set(live) - set(self.scopes[-1]["names"])) if self.depth() > 0 else []
+            n = rng.choice(outer) if outer and rng.random() < 0.7 else rng.choice(live)
             return mk("(assert (! %s :named n%d))" % (L, n), "A%d:1:n%d=%d" % (self.tid(L), n, self.tid(L)))
         if kind == "named-then-fail":
             cand = [n for n in future_names if n not in self.live_names()] or [self.fresh_name(0.0)]
@@ -381,7 +382,8 @@ class Gen:
             lf = sorted(self.live_funs())
             if not lf:
                 return None
-            k = rng.choice(lf)
+            outer = sorted(set(lf) - set(self.scopes[-1]["funs"])) if self.depth() > 0 else []
+            k = rng.choice(outer) if outer and rng.random() < 0.7 else rng.choice(lf)
             return mk("(define-fun f%d () Bool %s)" % (k, L), "D%d|1|1|%d:1:" % (100 + k, self.tid(L)))
         if kind == "bad-define-named":
             cand = [n for n in future_names if n not in self.live_names()] or [self.fresh_name(0.0)]
@@ -497,10 +499,100 @@ def history_with_injections(g, n, kinds, ninj):
             c = g.c_pop()
         else:
             c = g.c_check()
+            if body_kinds and rng.random() < 0.25:
+                # a rejected command between a check-sat and the queries of its result
+                x = g.inject(rng.choice(body_kinds))
+                if x is not None:
+                    c.insert(rng.randint(1, len(c)), x)
         if c is None:
             continue
         out += c if isinstance(c, list) else [c]
     out += g.c_check()
+    return out
+
+
+def use_all(g):
+    """commands that USE everything the scopes say is live (and re-introduce what they say is gone):
+    every live function asserted, one live function re-defined (must be refused), popped functions and
+    names introduced again (must be accepted), then a check-sat with the queries of the mode."""
+    rng = g.rng
+    out = []
+    live = sorted(g.live_funs())
+    for k in live:
+        c = g.c_assert_fun(k)
+        if c is not None:
+            out.append(c)
+    if live:
+        k = rng.choice(live)
+        body = ("lit", g.rand_lit())
+        text, at = g.aterm(body)
+        out.append(Cmd("(define-fun f%d () Bool %s)" % (k, text), "D%d|1|1|%s" % (100 + k, at), "ref:dup-fun", expect="err", fun=k))
+    for k in [f for f in sorted(g.popped_funs) if f not in g.live_funs()][:2]:
+        c = g.c_define(k)
+        if c is not None:
+            out.append(c)
+            c2 = g.c_assert_fun(k)
+            if c2 is not None:
+                out.append(c2)
+    for _ in range(2):
+        out.append(g.c_assert(named=True))
+    out += g.c_check()
+    return out
+
+
+def _valid_step(g, allow_scope=True):
+    rng = g.rng
+    r = rng.random()
+    if r < 0.15:
+        return g.c_assert()
+    if r < 0.40:
+        return g.c_assert(named=True)
+    if r < 0.50:
+        return g.c_assert(named=rng.random() < 0.5, nested=True)
+    if r < 0.56:
+        return g.c_assert(reuse=True, named=rng.random() < 0.6)
+    if r < 0.80:
+        return g.c_define()
+    return g.c_assert_fun()
+
+
+def history_nested(g, kinds, ninj):
+    """definitions and names at level 0, one or two pushes with more of them, the rejected commands at the
+    deepest level (some of them between a check-sat and its queries), pops back to level 0, then use_all()."""
+    rng = g.rng
+    out = g.header()
+    body_kinds = [k for k in kinds if k != "before-set-logic"] or ["dup-define"]
+
+    def add(c):
+        if c is not None:
+            out.extend(c if isinstance(c, list) else [c])
+    add(g.c_define())
+    for _ in range(rng.randint(2, 4)):
+        add(_valid_step(g))
+    if rng.random() < 0.4:
+        add(g.c_check())
+    for _ in range(rng.randint(1, 2)):
+        add(g.c_push())
+        for _ in range(rng.randint(1, 3)):
+            add(_valid_step(g))
+    left = ninj
+    while left > 0:
+        if rng.random() < 0.45:
+            blk = g.c_check()
+            c = g.inject(rng.choice(body_kinds))
+            if c is not None:
+                blk.insert(rng.randint(1, len(blk)), c)
+            add(blk)
+        else:
+            add(g.inject(rng.choice(body_kinds)))
+            if rng.random() < 0.5:
+                add(_valid_step(g))
+        left -= 1
+    while g.depth() > 0:
+        add(g.c_pop())
+        if rng.random() < 0.3:
+            add(_valid_step(g))
+    add(use_all(g))
     return out
 
 
